@@ -300,3 +300,433 @@ impl PartialOrd for Step {
         (*self as u8).partial_cmp(&(*o as u8))
     }
 }
+
+// ------------------------------------------------------------------------------------------ C01 presets
+/// small routing scenarios started at ID-codec boundaries (127/128, 255/256, 2^15, 2^16, 2^23, 2^24, 2^31-1 wrap)
+pub fn preset_boundaries() -> Vec<i32> {
+    vec![126, 254, 32766, 65534, 8388606, 16777214, 2147483645]
+}
+
+pub fn c01_presets() -> Vec<Scenario> {
+    let mut out = vec![];
+    for last in preset_boundaries() {
+        let mut s = Scenario::new(&format!("C01/preset-last={}", last));
+        s.clients = vec![
+            client(vec![single(OpKind::Bind, "a0"), single(OpKind::Delete, "a1")]),
+            client(vec![Call::Search { marker: "s0".into(), timeout: None }]),
+        ];
+        s.plans.insert("s0".into(), plan_items(&[E]));
+        s.preset = Some((last, vec![]));
+        s.select_starts = vec![0, 1];
+        s.oracles = Oracles { route: true, ids: true, leak: true, ..Default::default() };
+        out.push(s);
+    }
+    out
+}
+
+// ------------------------------------------------------------------------------------------ C05
+pub fn c05(tier: Tier) -> Vec<Scenario> {
+    let mut out = vec![];
+    let max = i32::MAX;
+    let w: [i32; 7] = [max - 2, max - 1, max, 1, 2, 3, 4];
+    let lasts: Vec<i32> = w.to_vec();
+    let subsets: Vec<u32> = if tier == Tier::Thorough { (0..128).collect() } else { (0..128).filter(|m: &u32| m.count_ones() <= 2 || *m == 127 - 8 || *m % 9 == 0).collect() };
+    for last in &lasts {
+        for m in &subsets {
+            let inuse: Vec<i32> = (0..7).filter(|b| m & (1 << b) != 0).map(|b| w[b as usize]).collect();
+            if inuse.len() == 7 {
+                continue;
+            }
+            let mut s = Scenario::new(&format!("C05/window last={} inuse={:?}", last, inuse));
+            s.clients = if tier == Tier::Thorough {
+                vec![client(vec![single(OpKind::Bind, "a0"), single(OpKind::Compare, "a1")]), client(vec![single(OpKind::Delete, "b0")])]
+            } else {
+                vec![client(vec![single(OpKind::Bind, "a0"), single(OpKind::Compare, "a1"), single(OpKind::Delete, "a2")])]
+            };
+            s.preset = Some((*last, inuse));
+            s.select_starts = vec![1];
+            s.oracles = Oracles { ids: true, route: true, ..Default::default() };
+            out.push(s);
+        }
+    }
+    // codec boundaries: the ID the server decodes must be the ID allocated
+    for last in preset_boundaries() {
+        let mut s = Scenario::new(&format!("C05/boundary last={}", last));
+        s.clients = vec![client(vec![single(OpKind::Bind, "a0"), single(OpKind::Compare, "a1")]), client(vec![start("s0", Chain::Direct), Call::Next, Call::Next, Call::Finish])];
+        s.plans.insert("s0".into(), plan_items(&[E]));
+        s.preset = Some((last, vec![]));
+        s.select_starts = vec![1];
+        s.oracles = Oracles { ids: true, route: true, ..Default::default() };
+        out.push(s);
+    }
+    // concurrency of starts and completions on several handles, streams kept open
+    let mut s = Scenario::new("C05/several-handles");
+    s.clients = vec![
+        client(vec![single(OpKind::Bind, "a0"), single(OpKind::Bind, "a1")]),
+        client(vec![start("s0", Chain::Direct), Call::Next, single(OpKind::Compare, "b1"), Call::Next, Call::Finish]),
+    ];
+    if tier == Tier::Thorough {
+        s.clients.push(client(vec![Call::Search { marker: "s1".into(), timeout: None }, single(OpKind::Delete, "c1")]));
+        s.plans.insert("s1".into(), plan_items(&[E]));
+    }
+    s.plans.insert("s0".into(), plan_items(&[E]));
+    s.select_starts = vec![0, 1];
+    s.oracles = Oracles { ids: true, route: true, ..Default::default() };
+    out.push(s);
+    // timeouts and abandons free IDs while other operations are outstanding
+    let mut s = Scenario::new("C05/timeout-abandon-reuse");
+    s.clients = vec![
+        client(vec![tsingle(OpKind::Compare, "t0", 10), single(OpKind::Bind, "a1")]),
+        client(vec![single(OpKind::Delete, "b0"), Call::Abandon(AbTarget::OwnLast), single(OpKind::Add, "b2")]),
+    ];
+    s.plans.insert("t0".into(), Plan { silent: true, ..Default::default() });
+    s.tick_budget = 2;
+    s.select_starts = vec![0, 1];
+    s.oracles = Oracles { ids: true, route: true, ..Default::default() };
+    out.push(s);
+    out
+}
+
+// ------------------------------------------------------------------------------------------ C10
+fn item_seqs(maxlen: usize) -> Vec<Vec<ItemKind>> {
+    let mut out: Vec<Vec<ItemKind>> = vec![vec![]];
+    let mut frontier: Vec<Vec<ItemKind>> = vec![vec![]];
+    for _ in 0..maxlen {
+        let mut next = vec![];
+        for s in &frontier {
+            for k in [E, R, I] {
+                let mut t = s.clone();
+                t.push(k);
+                next.push(t);
+            }
+        }
+        out.extend(next.iter().cloned());
+        frontier = next;
+    }
+    out
+}
+
+pub fn c10(tier: Tier) -> Vec<Scenario> {
+    let mut out = vec![];
+    let rcs = [0u32, 4, 10, 32];
+    let seqs = item_seqs(tier.pick(2, 3));
+    for (n, seq) in seqs.iter().enumerate() {
+        for (ci, chain) in [Chain::Direct, Chain::EntriesOnly].iter().enumerate() {
+            let rc_list: Vec<u32> = if tier == Tier::Thorough && seq.len() <= 2 { rcs.to_vec() } else { vec![rcs[(n + ci) % 4]] };
+            for rc in rc_list {
+                let mut s = Scenario::new(&format!("C10/{:?}/{:?}/rc{}", chain, seq, rc));
+                s.clients = vec![ClientSpec { script: vec![start("s", chain.clone())], free: seq.len() as u8 + 3 }];
+                s.plans.insert(
+                    "s".into(),
+                    Plan { rc, items: seq.clone(), item_ctrls: n % 2 == 0, res_ctrls: n % 3 != 1, referral: rc == 10, ..Default::default() },
+                );
+                s.select_starts = vec![1];
+                s.oracles = Oracles { stream: true, route: true, leak: true, ids: true, ..Default::default() };
+                out.push(s);
+            }
+        }
+        let rc = rcs[n % 4];
+        let mut s = Scenario::new(&format!("C10/search()/{:?}/rc{}", seq, rc));
+        s.clients = vec![client(vec![Call::Search { marker: "s".into(), timeout: None }])];
+        s.plans.insert("s".into(), Plan { rc, items: seq.clone(), item_ctrls: n % 2 == 1, res_ctrls: n % 3 != 0, referral: rc == 10, ..Default::default() });
+        s.select_starts = vec![1];
+        s.oracles = Oracles { stream: true, route: true, leak: true, ..Default::default() };
+        out.push(s);
+    }
+    // a failing stream: the connection drops mid-read, then finish() twice
+    for chain in [Chain::Direct, Chain::EntriesOnly] {
+        let mut s = Scenario::new(&format!("C10/{:?}/failure-then-finish", chain));
+        s.clients = vec![ClientSpec { script: vec![start("s", chain), Call::Next], free: 3 }];
+        s.plans.insert("s".into(), plan_items(&[E, E]));
+        s.faults = vec![FaultKind::Eof];
+        s.fault_budget = 1;
+        s.select_starts = vec![1];
+        s.oracles = Oracles { stream: true, route: true, ..Default::default() };
+        out.push(s);
+    }
+    if tier == Tier::Thorough {
+        // a second client doing single operations meanwhile
+        for chain in [Chain::Direct, Chain::EntriesOnly] {
+            let mut s = Scenario::new(&format!("C10/{:?}/with-second-client", chain));
+            s.clients = vec![ClientSpec { script: vec![start("s", chain)], free: 5 }, client(vec![single(OpKind::Bind, "b0"), single(OpKind::Delete, "b1")])];
+            s.plans.insert("s".into(), Plan { items: vec![E, R], rc: 4, res_ctrls: true, ..Default::default() });
+            s.select_starts = vec![1];
+            s.oracles = Oracles { stream: true, route: true, leak: true, ids: true, ..Default::default() };
+            out.push(s);
+        }
+    }
+    out
+}
+
+// ------------------------------------------------------------------------------------------ C16
+pub fn c16(tier: Tier) -> Vec<Scenario> {
+    let mut out = vec![];
+    let extras = ["none", "ctrl", "opts", "timeout"];
+    let cookies = [CookieStyle::Distinct, CookieStyle::Constant, CookieStyle::EmptyFirst];
+    let mut k = 0usize;
+    for n in 0..=5usize {
+        for p in 1..=3i32 {
+            for (ci, ck) in cookies.iter().enumerate() {
+                for (xi, extra) in extras.iter().enumerate() {
+                    for (hi, chain) in [Chain::Paged(p), Chain::EntriesPaged(p)].iter().enumerate() {
+                        k += 1;
+                        // quick: a covering subset of the product (every pair (n,p), every cookie style and extra with each chain)
+                        if tier == Tier::Quick && (n + p as usize + ci + xi + hi) % 4 != 0 {
+                            continue;
+                        }
+                        let mut s = Scenario::new(&format!("C16/n{}p{}/{:?}/{}/{:?}", n, p, ck, extra, chain));
+                        let mut script = vec![Call::Start {
+                            marker: "pg".into(),
+                            chain: chain.clone(),
+                            timeout: if *extra == "timeout" { Some(10) } else { None },
+                            ctrl: *extra == "ctrl",
+                            opts: *extra == "opts",
+                            own_paging: false,
+                        }];
+                        for _ in 0..=n {
+                            script.push(Call::Next);
+                        }
+                        script.push(Call::Next);
+                        script.push(Call::Finish);
+                        s.clients = vec![client(script)];
+                        s.plans.insert("pg".into(), Plan { total: n, cookie: *ck, res_ctrls: k % 2 == 0, ..Default::default() });
+                        s.select_starts = vec![1];
+                        if *extra == "timeout" {
+                            s.tick_budget = 1;
+                        }
+                        s.oracles = Oracles { paged: true, stream: true, route: true, leak: true, ids: true, timing: *extra == "timeout", ..Default::default() };
+                        out.push(s);
+                    }
+                }
+            }
+        }
+    }
+    // free call plans (early finish at every point)
+    for n in 0..=tier.pick(2usize, 4) {
+        for p in 1..=2i32 {
+            for chain in [Chain::Paged(p), Chain::EntriesPaged(p)] {
+                let mut s = Scenario::new(&format!("C16/free/n{}p{}/{:?}", n, p, chain));
+                s.clients = vec![ClientSpec { script: vec![start("pg", chain)], free: n as u8 + 3 }];
+                s.plans.insert("pg".into(), Plan { total: n, ..Default::default() });
+                s.select_starts = vec![1];
+                s.oracles = Oracles { paged: true, stream: true, route: true, leak: true, ids: true, ..Default::default() };
+                out.push(s);
+            }
+        }
+    }
+    // a caller-supplied paging control must be refused at start
+    for chain in [Chain::Paged(2), Chain::EntriesPaged(2)] {
+        let mut s = Scenario::new(&format!("C16/own-paging-control/{:?}", chain));
+        s.clients = vec![client(vec![
+            Call::Start { marker: "pg".into(), chain, timeout: None, ctrl: true, opts: false, own_paging: true },
+            single(OpKind::Bind, "after"),
+        ])];
+        s.plans.insert("pg".into(), Plan { total: 2, ..Default::default() });
+        s.select_starts = vec![1];
+        s.oracles = Oracles { paged: true, route: true, leak: true, ..Default::default() };
+        out.push(s);
+    }
+    // two paged searches at once on two handles
+    let mut s = Scenario::new("C16/two-paged-concurrently");
+    s.clients = vec![
+        client(vec![start("pa", Chain::Paged(1)), Call::Next, Call::Next, Call::Next, Call::Finish]),
+        client(vec![start("pb", Chain::EntriesPaged(2)), Call::Next, Call::Next, Call::Next, Call::Next, Call::Finish]),
+    ];
+    s.plans.insert("pa".into(), Plan { total: 2, ..Default::default() });
+    s.plans.insert("pb".into(), Plan { total: 3, cookie: CookieStyle::Constant, ..Default::default() });
+    s.select_starts = vec![1];
+    s.oracles = Oracles { paged: true, stream: true, route: true, leak: true, ids: true, ..Default::default() };
+    if tier == Tier::Thorough {
+        out.push(s);
+    }
+    out
+}
+
+// ------------------------------------------------------------------------------------------ C12
+pub fn c12(tier: Tier) -> Vec<Scenario> {
+    let mut out = vec![];
+    let o = Oracles { timing: true, route: true, leak: true, ids: true, term: false, ..Default::default() };
+    // timed single op; the server may answer at any moment (before, at, after the deadline)
+    for kind in [OpKind::Bind, OpKind::Extended] {
+        let mut s = Scenario::new(&format!("C12/timed-single-{:?}", kind));
+        s.clients = vec![client(vec![tsingle(kind, "t0", 10)])];
+        s.tick_budget = 3;
+        s.oracles = o.clone();
+        out.push(s);
+    }
+    // never answered: must time out, then later operations work and nothing is left behind
+    let mut s = Scenario::new("C12/timed-silent-then-two-more");
+    s.clients = vec![client(vec![tsingle(OpKind::Compare, "t0", 10), single(OpKind::Bind, "a1"), single(OpKind::Delete, "a2")])];
+    s.plans.insert("t0".into(), Plan { silent: true, ..Default::default() });
+    s.tick_budget = 3;
+    s.oracles = o.clone();
+    out.push(s);
+    // timed + untimed on two handles, late reply allowed for the timed-out one
+    let mut s = Scenario::new("C12/timed+untimed-two-handles");
+    s.clients = vec![client(vec![tsingle(OpKind::Compare, "t0", 10), single(OpKind::Bind, "a1")]), client(vec![single(OpKind::Delete, "b0")])];
+    s.tick_budget = 2;
+    s.oracles = o.clone();
+    out.push(s);
+    // timed stream with two items: the deadline is per next() call
+    for chain in [Chain::Direct, Chain::EntriesOnly] {
+        let mut s = Scenario::new(&format!("C12/timed-stream-{:?}", chain));
+        s.clients = vec![client(vec![
+            Call::Start { marker: "s".into(), chain, timeout: Some(10), ctrl: false, opts: false, own_paging: false },
+            Call::Next,
+            Call::Next,
+            Call::Next,
+            Call::Finish,
+            single(OpKind::Bind, "after"),
+        ])];
+        s.plans.insert("s".into(), plan_items(&[E, E]));
+        s.tick_budget = tier.pick(3, 4);
+        s.select_starts = vec![0, 1];
+        s.oracles = o.clone();
+        out.push(s);
+    }
+    // search() with a timeout: timer restarts with every item
+    let mut s = Scenario::new("C12/timed-search()");
+    s.clients = vec![client(vec![Call::Search { marker: "s".into(), timeout: Some(10) }, single(OpKind::Bind, "after")])];
+    s.plans.insert("s".into(), plan_items(&[E, E]));
+    s.tick_budget = tier.pick(3, 4);
+    s.select_starts = vec![0, 1];
+    s.oracles = o.clone();
+    out.push(s);
+    // a timeout set on a search must not leak to the following operation on the handle, and vice versa
+    let mut s = Scenario::new("C12/timeout-does-not-stick");
+    s.clients = vec![client(vec![
+        Call::Start { marker: "s".into(), chain: Chain::Direct, timeout: Some(10), ctrl: false, opts: false, own_paging: false },
+        Call::Next,
+        Call::Finish,
+        single(OpKind::Delete, "untimed"),
+    ])];
+    s.plans.insert("s".into(), plan_items(&[]));
+    s.tick_budget = 3;
+    s.select_starts = vec![1];
+    s.oracles = o.clone();
+    out.push(s);
+    if tier == Tier::Thorough {
+        let mut s = Scenario::new("C12/two-timed-different-timeouts");
+        s.clients = vec![client(vec![tsingle(OpKind::Compare, "t0", 10)]), client(vec![tsingle(OpKind::Bind, "t1", 20), single(OpKind::Delete, "b1")])];
+        s.plans.insert("t0".into(), Plan { silent: true, ..Default::default() });
+        s.tick_budget = 5;
+        s.oracles = o.clone();
+        out.push(s);
+        let mut s = Scenario::new("C12/timed-paged");
+        s.clients = vec![client(vec![
+            Call::Start { marker: "pg".into(), chain: Chain::Paged(1), timeout: Some(10), ctrl: false, opts: false, own_paging: false },
+            Call::Next,
+            Call::Next,
+            Call::Next,
+            Call::Finish,
+        ])];
+        s.plans.insert("pg".into(), Plan { total: 2, ..Default::default() });
+        s.tick_budget = 3;
+        s.select_starts = vec![1];
+        s.oracles = o.clone();
+        out.push(s);
+    }
+    out
+}
+
+// ------------------------------------------------------------------------------------------ C04
+pub fn c04(tier: Tier) -> Vec<Scenario> {
+    let mut out = vec![];
+    let o = Oracles { term: true, route: true, ..Default::default() };
+    let read_faults = vec![FaultKind::Eof, FaultKind::Reset, FaultKind::Garbage];
+    let write_faults = vec![FaultKind::WriteErr, FaultKind::WritePartial(3), FaultKind::WritePendingOnce];
+    let mut all = read_faults.clone();
+    all.extend(write_faults.clone());
+
+    let mut s = Scenario::new("C04/one-single+post-fault-call");
+    s.clients = vec![client(vec![single(OpKind::Bind, "a0"), single(OpKind::Delete, "a1")])];
+    s.faults = all.clone();
+    s.fault_budget = 1;
+    s.oracles = o.clone();
+    out.push(s);
+
+    let mut s = Scenario::new("C04/two-singles");
+    s.clients = vec![client(vec![single(OpKind::Bind, "a0")]), client(vec![single(OpKind::Compare, "b0"), single(OpKind::Add, "b1")])];
+    s.faults = all.clone();
+    s.fault_budget = 1;
+    s.select_starts = vec![0, 1, 3];
+    s.oracles = o.clone();
+    out.push(s);
+
+    let mut s = Scenario::new("C04/single+stream-mid-read");
+    s.clients = vec![
+        client(vec![single(OpKind::Modify, "a0"), single(OpKind::Bind, "a1")]),
+        client(vec![start("s", Chain::Direct), Call::Next, Call::Next, Call::Next, Call::Finish]),
+    ];
+    s.plans.insert("s".into(), plan_items(&[E, E]));
+    s.faults = if tier == Tier::Thorough { all.clone() } else { vec![FaultKind::Eof, FaultKind::Garbage, FaultKind::WriteErr] };
+    s.fault_budget = 1;
+    s.select_starts = vec![1, 3];
+    s.oracles = o.clone();
+    out.push(s);
+
+    let mut s = Scenario::new("C04/stream+search()");
+    s.clients = vec![
+        client(vec![start("s", Chain::EntriesOnly), Call::Next, Call::Next, Call::Finish]),
+        client(vec![Call::Search { marker: "t".into(), timeout: None }]),
+    ];
+    s.plans.insert("s".into(), plan_items(&[E]));
+    s.plans.insert("t".into(), plan_items(&[E, R]));
+    s.faults = if tier == Tier::Thorough { all.clone() } else { vec![FaultKind::Reset, FaultKind::WritePartial(3)] };
+    s.fault_budget = 1;
+    s.select_starts = vec![1, 3];
+    s.oracles = o.clone();
+    out.push(s);
+
+    // byte level: EOF / reset after every byte of the response stream
+    let mut s = Scenario::new("C04/bytes-single+search()");
+    s.clients = vec![client(vec![single(OpKind::Bind, "a")]), client(vec![Call::Search { marker: "s".into(), timeout: None }])];
+    s.plans.insert("s".into(), plan_items(&[E]));
+    s.byte_mode = true;
+    s.net_steps = vec![NetStep::One, NetStep::All];
+    s.faults = vec![FaultKind::Eof, FaultKind::Reset];
+    s.fault_budget = 1;
+    s.select_starts = vec![3];
+    s.oracles = o.clone();
+    out.push(s);
+
+    // write faults at every byte of a request
+    for n in 0..tier.pick(8usize, 24) {
+        let mut s = Scenario::new(&format!("C04/write-fails-after-{}-bytes", n));
+        s.clients = vec![client(vec![single(OpKind::Bind, "a0")]), client(vec![single(OpKind::Compare, "b0")])];
+        s.faults = vec![FaultKind::WritePartial(n)];
+        s.fault_budget = 1;
+        s.select_starts = vec![1];
+        s.oracles = o.clone();
+        out.push(s);
+    }
+
+    // unbind by another handle while operations are pending
+    let mut s = Scenario::new("C04/unbind-while-pending");
+    s.clients = vec![
+        client(vec![single(OpKind::Bind, "a0"), single(OpKind::Delete, "a1")]),
+        client(vec![Call::Unbind, single(OpKind::Compare, "b1")]),
+        client(vec![start("s", Chain::Direct), Call::Next, Call::Next, Call::Finish]),
+    ];
+    s.plans.insert("s".into(), plan_items(&[E]));
+    s.select_starts = vec![1, 3];
+    s.oracles = o.clone();
+    out.push(s);
+
+    // dropping the last handle closes the connection
+    let mut s = Scenario::new("C04/drop-all-handles");
+    s.clients = vec![client(vec![single(OpKind::Bind, "a0")]), client(vec![start("s", Chain::Direct), Call::Next, Call::Next, Call::Finish])];
+    s.plans.insert("s".into(), plan_items(&[E]));
+    s.drop_all = true;
+    s.select_starts = vec![0, 1, 2, 3];
+    s.oracles = o.clone();
+    out.push(s);
+
+    let mut s = Scenario::new("C04/drop-handle-with-op-pending");
+    s.clients = vec![client(vec![single(OpKind::Bind, "a0"), Call::DropHandle]), client(vec![Call::DropHandle])];
+    s.drop_all = true;
+    s.select_starts = vec![0, 1, 2, 3];
+    s.oracles = o;
+    out.push(s);
+    out
+}
